@@ -19,6 +19,8 @@ ASSUMPTIONS = ["the derived Ord of Ipv4Mask/Ipv4Address is the numeric order of 
 
 
 def run(ctx):
+    from . import netarith
+    netarith.run(ctx)
     prog = ctx.prog()
     oc = prog.method("Obm", "cmp", "Ord")
     g = cfg(oc)
@@ -150,32 +152,11 @@ def run(ctx):
             ok = b.key in (new.key, new1.key) or (b.derived and b.impl_trait == "core::clone::Clone")
             (ctx.ok if ok else ctx.bad)("R-CTOR", "R-CTOR:Ipv4Net@%s" % b.key, st[3], "Ipv4Net built in new/new_1" if ok else "an Ipv4Net is built outside new/new_1 in %s: its id may not be masked" % b.pretty)
     ctx.require(n >= 5, "R-CTOR: only %d constructions found" % n)
-    probs = []
-    ag = K.aggregates(new, "subnetting::Ipv4Net")
-    if len(ag) == 1:
-        e = dep.tree_str(dep.expr_tree(new, K.agg_field_operand(ag[0][1], "network_id"), 20))
-        if "(to_u32(ip) & to_u32(mask))" not in e:
-            probs.append("Ipv4Net::new does not store ip & mask as the id (stores %s)" % e)
-        if dep.tree_str(dep.expr_tree(new, K.agg_field_operand(ag[0][1], "mask"), 20)) != "mask":
-            probs.append("Ipv4Net::new does not store the given mask")
-    else:
-        probs.append("Ipv4Net::new does not build one Ipv4Net")
-    ag = K.aggregates(new1, "subnetting::Ipv4Net")
-    if len(ag) == 1:
-        e = dep.tree_str(dep.expr_tree(new1, K.agg_field_operand(ag[0][1], "mask"), 20))
-        if e != "from_bitcount(32)":
-            probs.append("Ipv4Net::new_1 does not use a /32 mask (%s)" % e)
-    (ctx.bad if probs else ctx.ok)("R-CTOR", "R-CTOR:Ipv4Net::new", new.span, "; ".join(probs) if probs else "new(): id = ip & mask; new_1(): /32")
+    # (the stored id / mask of new() and new_1() are decided semantically by netarith: R-BITS:new, R-BITS:new_1)
     for adt, fields in (("subnetting::Ipv4Net", None), ("subnetting::Ipv4Mask", None), ("ip_table::IpTable", None)):
         a = prog.adt(adt)
         for f in a["variants"][0]["fields"]:
             ok = "Public" not in f["vis"]
             (ctx.ok if ok else ctx.bad)("R-CTOR", "R-CTOR:vis:%s.%s" % (adt.rsplit("::", 1)[-1], f["name"]), a["span"],
                 "field is private" if ok else "%s.%s is public: invariants can be broken from outside" % (adt, f["name"]))
-    # from_bitcount: the three arms
-    fe = []
-    for bb, st in K.aggregates(fb, "subnetting::Ipv4Mask"):
-        fe.append(dep.tree_str(dep.expr_tree(fb, st[2][2][0], 20)))
-    want = {"0", "4294967295", "(((1 << size) - 1) << (32 - size))"}
-    ok = set(fe) == want
-    (ctx.ok if ok else ctx.bad)("R-CTOR", "R-CTOR:from_bitcount", fb.span, "from_bitcount builds 0, 0xFFFFFFFF or ((1<<n)-1)<<(32-n)" if ok else "from_bitcount builds %s, expected %s" % (sorted(fe), sorted(want)))
+    # (the value of from_bitcount is decided semantically by netarith: R-MASK)
